@@ -95,12 +95,16 @@ _job_counter = [0]
 def run_jobs(texts, wants, jobs, measure=False, timeout=600, hashseed=None):
     """One fresh interpreter.  A fresh interpreter has its own string-hash seed: the reference parses use seed 0,
     every other interpreter a different one (cycling through fixed seeds and 'random')."""
+    ambient = "0"
     if hashseed is None:
         _job_counter[0] += 1
         hashseed = _HASHSEEDS[_job_counter[0] % len(_HASHSEEDS)]
+        # ... and its own ambient configuration, set up BEFORE the library is imported: debug logging, a coarse decimal context
+        # with a directed rounding mode (every third interpreter; the reference parses run under the defaults)
+        ambient = str((_job_counter[0] // 3) % 5) if _job_counter[0] % 3 == 0 and not measure else "0"
     payload = json.dumps({"repo": str(REPO), "texts": texts, "wants": wants, "jobs": jobs, "measure": measure})
     p = subprocess.run([PY, str(VERIF / "harness" / "purity_runner.py")], input=payload, capture_output=True, text=True,
-                       env=child_env({"PYTHONHASHSEED": hashseed}), timeout=timeout)
+                       env=child_env({"PYTHONHASHSEED": hashseed, "VERIF_AMBIENT": ambient}), timeout=timeout)
     if p.returncode != 0:
         raise MachineryError("purity runner failed: " + p.stderr[-2000:])
     return [json.loads(ln) for ln in p.stdout.splitlines() if ln.startswith("{")]
